@@ -94,6 +94,36 @@ def small_worlds(ck, n, start):
     return out
 
 
+def bandwidth_worlds(ck, n, start):
+    """Memory-bound 3-level matmuls (DRAM, GLB, RF; finite GLB/RF; few actions per cycle at DRAM and GLB): latency
+    depends on the tile shapes, so the energy-optimal, latency-optimal and EDP-optimal tile shapes of a template
+    differ.  Too large for the Mapspace enumeration; used by the checks that need mapper runs only."""
+    rng = random.Random(7700 * ck.seed + start)
+    out = []
+    for i in range(n):
+        bounds = [[8, 8, 8], [8, 4, 8], [16, 4, 4], [8, 8, 4]][i % 4] if i else [8, 8, 8]
+        w = mc.gen_microspec(rng, start + i, n_mem=3, bounds=bounds, kind="matmul")
+        for t in w["tensors"]:
+            w["wbits"][t] = 8
+            for c in w["bits"]:
+                w["bits"][c][t] = 8
+        mems = sorted(w["level"], key=lambda c: w["level"][c])
+        e = {mems[0]: rng.choice([8, 16]), mems[1]: rng.choice([2, 4]), mems[2]: 1}
+        tp = {mems[0]: [rng.choice([2, 4]), 1], mems[1]: [rng.choice([2, 8]), 1], mems[2]: [1, 0]}
+        for c in mems:
+            for a in w["cost"][c]["energy"]:
+                w["cost"][c]["energy"][a] = e[c]
+                w["cost"][c]["tput"][a] = tp[c]
+            if w["level"][c]:
+                w["keep"][c] = []
+                w["maykeep"][c] = list(w["tensors"])
+        w["size"][mems[1]] = rng.choice([512, 1024])
+        w["size"][mems[2]] = rng.choice([64, 128])
+        w["mac"]["energy"], w["mac"]["tput"] = 1, [1, 1]
+        out.append(w)
+    return out
+
+
 def report(ck, pid, traces, verdicts, worlds_by_trace, configs_by_step):
     """Turn ConfigLattice verdict records into violations."""
     for v in verdicts:
